@@ -2,6 +2,7 @@
 //   dec <hex>                 Xml::decode on the bytes -> "null" | canonical dump with parent flags
 //   enc <fmt> <tree tokens>   build the DOM with the public API, print hex(Xml::encode(tree, fmt))
 //   rt  <fmt> <tree tokens>   dump(Xml::decode(Xml::encode(tree, fmt)))
+//   sub <hex> <k>             decode, keep only the k-th node (document order, k mod count), release the tree, dump the survivor
 //   deep <n> <kind>           decode a document nested n levels (0: closed, 1: closed then mismatched end tag, 2: unclosed)
 // tree tokens (preorder): E <hextag> <nattr> {<hexname> <hexval>} <nchildren> children... | T <hextext>
 // dump: element  E<hextag>[<hexname>=<hexval>,...]{<flag><child> ...}   text  T<hex>
@@ -37,6 +38,13 @@ static void dump(const Xml& e, std::string& out)
 		dump(c, out);
 	}
 	out += "}";
+}
+
+static void preorder(const Xml& e, std::vector<Xml>& out)
+{
+	out.push_back(e);
+	if (e.isText()) return;
+	for (int i = 0; i < e.numChildren(); i++) preorder(e.child(i), out);
 }
 
 static std::string show(const Xml& e)
@@ -115,6 +123,21 @@ static std::string step(const Toks& t)
 		if (t[2] == "1") d += "</x>";
 		Xml e = Xml::decode(String(d.data(), (int)d.size()));
 		return deepShow(e);
+	}
+	if (op == "sub" && t.size() == 3) {
+		// keep a handle to the k-th node (document order) of the decoded tree, drop the tree, then look at the survivor
+		Exact d(unhex(t[1]));
+		Xml c;
+		{
+			Xml r = Xml::decode(String(d.p, (int)d.n));
+			if (!r) return "null";
+			std::vector<Xml> pre;
+			preorder(r, pre);
+			c = pre[(size_t)(num(t[2]) % (long long)pre.size())];
+		}
+		std::string out = c.parent().isnull() ? "R+" : "R!";
+		dump(c, out);
+		return out;
 	}
 	if (op == "dec" && t.size() == 2) {
 		Exact d(unhex(t[1]));
